@@ -220,13 +220,18 @@ fn push_hostile_at(g: &mut Gen, bytes: Vec<u8>, extra: &[i128]) {
     ints.extend(ts.iter());
     g.push(true, Input::with_strs("tz_lookup", ints, vec![bytes_to_str(&bytes)]));
 }
-const BAD_FOOTERS: [&str; 46] = ["", "\n", "\n\n", "\nUTC0\n", "UTC0\n", "\nUTC0", "\n:UTC0\n", "\nUTC\n", "\n0\n", "\nA0\n", "\nUTC25\n", "\nUTC24:60\n",
+const BAD_FOOTERS: [&str; 66] = ["", "\n", "\n\n", "\nUTC0\n", "UTC0\n", "\nUTC0", "\n:UTC0\n", "\nUTC\n", "\n0\n", "\nA0\n", "\nUTC25\n", "\nUTC24:60\n",
     "\nUTC0:0:60\n", "\nUTC-24\n", "\nUTC99999999999999999999\n", "\nCET-1CEST\n", "\nCET-1CEST,\n", "\nCET-1CEST,M3.5.0\n", "\nCET-1CEST,M3.5.0,\n",
     "\nCET-1CEST,M13.1.0,M10.5.0\n", "\nCET-1CEST,M0.1.0,M10.5.0\n", "\nCET-1CEST,M3.0.0,M10.5.0\n", "\nCET-1CEST,M3.6.0,M10.5.0\n", "\nCET-1CEST,M3.5.7,M10.5.0\n",
     "\nCET-1CEST,J0,J100\n", "\nCET-1CEST,J366,J100\n", "\nCET-1CEST,J365,J1\n", "\nCET-1CEST,366,100\n", "\nCET-1CEST,365,0\n", "\nCET-1CEST,0,365\n",
     "\nCET-1CEST,99999999999999999999,1\n", "\nCET-1CEST,M3.5.0/25,M10.5.0\n", "\nCET-1CEST,M3.5.0/-1,M10.5.0\n", "\nCET-1CEST,M3.5.0/167,M10.5.0/-167\n",
     "\nCET-1CEST,M3.5.0/168,M10.5.0\n", "\nCET-1CEST,M3.5,M10.5.0\n", "\nCET-1CEST,M3,M10\n", "\nCET-1CEST,M+3.+5.+0,M10.5.0\n", "\n<+03>-3\n", "\n<+03-3\n", "\n<>0\n",
-    "\n<\u{e9}>3\n", "\nCET-1CEST,M3.5.0,M10.5.0junk\n", "\nCET-1CEST-2,J60/0,J300/0\n", "\n \tUTC0 \n", "\nUTC0\u{0}\n"];
+    "\n<\u{e9}>3\n", "\nCET-1CEST,M3.5.0,M10.5.0junk\n", "\nCET-1CEST-2,J60/0,J300/0\n", "\n \tUTC0 \n", "\nUTC0\u{0}\n",
+    // numbers that fit an i32 / u32 but whose product with 3600 or 60 does not, and the neighbours of the type limits
+    "\nUTC596523\n", "\nUTC596524\n", "\nUTC-596524\n", "\nUTC2147483647\n", "\nUTC-2147483647\n", "\nUTC2147483648\n", "\nUTC4294967295\n", "\nUTC4294967296\n",
+    "\nUTC0:35791395\n", "\nUTC0:2147483647\n", "\nUTC0:0:2147483647\n", "\nUTC1193047\n", "\nUTC1193046:71582788\n",
+    "\nCET-1CEST596524,M3.5.0,M10.5.0\n", "\nCET-1CEST-2147483647,M3.5.0,M10.5.0\n", "\nCET-1CEST,M3.5.0/596524,M10.5.0\n", "\nCET-1CEST,M3.5.0/2147483647,M10.5.0\n",
+    "\nCET-1CEST,M3.5.0,M10.5.0/-2147483647\n", "\nCET-1CEST,M3.5.0/0:2147483647,M10.5.0\n", "\nCET-1CEST,J2147483647,J1\n"];
 pub fn gen_c19(g: &mut Gen, tier: &str) {
     let n = if tier == "thorough" { 3_000 } else { 250 };
     // footer grammar mutations on a minimal valid v2/v3 skeleton (with and without transitions)
